@@ -127,7 +127,7 @@ CFG = {
         rule="distinct scenarios completed with >=3 candidate-filter calls, every output judged",
     ),
     "C18": dict(
-        profile=dict(name="c18", knobs=dict(n_search=0.75), cons_p=0.45, cons_w=[2, 2, 3, 2, 1, 3, 1],
+        profile=dict(name="c18", knobs=dict(n_search=0.75, search_method=0.45), cons_p=0.45, cons_w=[2, 2, 3, 2, 1, 3, 1],
                      fam_w=[5, 2, 1, 1, 1, 1, 3], budget_kinds=["small", "mid", "mid"]),
         n=dict(quick=128, thorough=4000),
         nontrivial=lambda r: r["outcome"] == "completed" and r["es_calls"] >= 2,
